@@ -48,7 +48,7 @@ import time
 import types as _types
 from collections import OrderedDict
 from http import HTTPStatus
-from typing import get_args, get_origin, get_type_hints
+from typing import Literal, get_args, get_origin, get_type_hints, overload
 
 import pyarrow as pa
 import zstandard
@@ -320,12 +320,36 @@ def _seal_call_token(
     return base64.b64encode(sealed)
 
 
+@overload
 def _open_call_token(
     token: bytes,
     token_key: bytes,
     aad: bytes,
     token_ttl: int = 0,
-) -> tuple[bytes, str, bytes, bytes, bytes, str]:
+    *,
+    with_created_at: Literal[False] = False,
+) -> tuple[bytes, str, bytes, bytes, bytes, str]: ...
+
+
+@overload
+def _open_call_token(
+    token: bytes,
+    token_key: bytes,
+    aad: bytes,
+    token_ttl: int = 0,
+    *,
+    with_created_at: Literal[True],
+) -> tuple[bytes, str, bytes, bytes, bytes, str, int]: ...
+
+
+def _open_call_token(
+    token: bytes,
+    token_key: bytes,
+    aad: bytes,
+    token_ttl: int = 0,
+    *,
+    with_created_at: bool = False,
+) -> tuple[bytes, str, bytes, bytes, bytes, str] | tuple[bytes, str, bytes, bytes, bytes, str, int]:
     """Open and verify a call token.
 
     Args:
@@ -333,10 +357,14 @@ def _open_call_token(
         token_key: 32-byte master AEAD key.
         aad: Associated data — must match the AAD used at seal time.
         token_ttl: Maximum token age in seconds; ``0`` disables expiry.
+        with_created_at: Also return the token's mint time (whole seconds
+            since the epoch), which is what its expiry — and so the lifetime
+            of anything derived from it — is counted from.
 
     Returns:
         ``(call_state_bytes, call_state_type, schema_bytes, input_schema_bytes,
-        call_id, stream_id)``
+        call_id, stream_id)``, followed by ``created_at`` when
+        *with_created_at* is set.
 
     Raises:
         _RpcHttpError: On malformed, tampered, expired, or cross-principal
@@ -375,12 +403,11 @@ def _open_call_token(
     if payload_end != len(plaintext):
         raise _RpcHttpError(RuntimeError("Malformed call token"), status_code=HTTPStatus.BAD_REQUEST)
 
-    if token_ttl > 0:
-        created_at = struct.unpack_from("<Q", plaintext, 0)[0]
-        if int(time.time()) - created_at > token_ttl:
-            raise _RpcHttpError(RuntimeError("Call token expired"), status_code=HTTPStatus.BAD_REQUEST)
+    created_at: int = struct.unpack_from("<Q", plaintext, 0)[0]
+    if token_ttl > 0 and int(time.time()) - created_at > token_ttl:
+        raise _RpcHttpError(RuntimeError("Call token expired"), status_code=HTTPStatus.BAD_REQUEST)
 
-    return (
+    fields = (
         call_state_bytes,
         type_bytes.decode(),
         schema_bytes,
@@ -388,6 +415,7 @@ def _open_call_token(
         call_id,
         stream_id_bytes.decode(),
     )
+    return (*fields, created_at) if with_created_at else fields
 
 
 def _read_segment(data: bytes, pos: int, message: str) -> tuple[bytes, int]:
